@@ -98,10 +98,12 @@ pub fn check_case(_ctx: &Ctx, case: &Case, t: &mut Tally) {
         }
         // DHW renewable fraction unchanged
         let acs2 = safe::guard(|| cte::fraccion_renovable_acs_nrb(&ep2));
+        let (_, dhw_band) = dhw_noise_band(&case.spec);
         match (&acs0, &acs2) {
+            _ if !dhw_guards_clear(&case.spec, c) => t.count("dhw_fraction_skipped_at_the_0.01_kWh_guard"),
             (Out::Ok(a), Out::Ok(b)) => {
                 t.count("dhw_fraction_pairs_compared");
-                if !((a - b).abs() <= 2e-5 * a.abs().max(1.0) || (a.is_nan() && b.is_nan())) {
+                if !(((a - b).abs() as f64) <= 2e-5 * (a.abs() as f64).max(1.0) + dhw_band || (a.is_nan() && b.is_nan())) {
                     t.violation("C11.dhw_fraction_changes_with_scale", format!("renewable DHW fraction {a} becomes {b} when every energy is multiplied by {c}"), || wit(json!({})));
                 }
             }
